@@ -78,6 +78,7 @@ class Check:
         return {}
 
     max_minimise_tests = {"quick": 400, "thorough": 1500}
+    replay_attempts = 1        # C18 overrides: a reproducibility violation is itself non-deterministic
 
     def pre_minimize(self, plan, violation):
         """Optional shortcut: a smaller plan to try before generic minimisation (must be re-validated)."""
@@ -214,8 +215,17 @@ def validate_evidence(ev):
     return None
 
 
-def run_replay_subprocess(path):
+def run_replay_subprocess(path, attempts=1):
     """Replay in a fresh interpreter; returns (reproduced, output)."""
+    out = ""
+    for _ in range(max(1, attempts)):
+        ok, out = _run_replay_once(path)
+        if ok:
+            return True, out
+    return False, out
+
+
+def _run_replay_once(path):
     env = dict(os.environ)
     env["PYTHONHASHSEED"] = os.environ.get("VERIF_HASHSEED", "0")
     env["PYTHONPATH"] = child_pythonpath()
@@ -316,7 +326,10 @@ def run_check(check, tier, workers=None):
                 r["violation"] = dict(r["violation"], op_index=None)
             mplan = minimize(plan, fails, check.reductions, max_tests=check.max_minimise_tests[tier],
                              op_index=r["violation"].get("op_index"))
-            res = check.run(mplan)
+            for _attempt in range(max(1, check.replay_attempts)):
+                res = check.run(mplan)
+                if not res["ok"]:
+                    break
         except Exception:  # noqa: BLE001
             harness_error("minimiser failed: %s" % traceback.format_exc()[-800:])
         if res["ok"]:
@@ -329,7 +342,7 @@ def run_check(check, tier, workers=None):
                   "runs_in_group": len(rs)}
         path = os.path.join(REPLAYS, "%s-%d-%d.json" % (prop, seed, r["idx"]))
         write_json(path, replay)
-        ok, out = run_replay_subprocess(path)
+        ok, out = run_replay_subprocess(path, check.replay_attempts)
         if not ok:
             harness_error("violation at run %d does not replay in a fresh interpreter:\n%s" % (r["idx"], out))
         k = match_known(findings, prop, replay)
